@@ -270,8 +270,11 @@ class Sheet:
         V = V.T.reshape(gs + osh)
         J = farr(rec['jac']) if D else np.zeros((0, nc, V.size // max(nc, 1)))     # (D, nc, npts)
         J = np.transpose(J, (2, 1, 0)).reshape(gs + osh + (D,))
-        H = farr(rec['hess'])                                   # (nh, nc, npts)
-        H = np.transpose(H, (2, 1, 0)).reshape(gs + osh + (H.shape[0],))
+        if rec['hess']:
+            H = farr(rec['hess'])                               # (nh, nc, npts)
+            H = np.transpose(H, (2, 1, 0)).reshape(gs + osh + (H.shape[0],))
+        else:
+            H = None                                            # Hessian not computed by the spec for this case
         return Sheet(grid, osh, V, J, H)
 
     def face(self, ax, idx):
@@ -284,6 +287,8 @@ class Sheet:
         pairs = [(a, b) for a in range(D) for b in range(a, D)]
         hk = [h for h, (a, b) in enumerate(pairs) if a != bn and b != bn]
         H = np.take(self.H, idx, axis=ax)[..., hk] if self.H is not None else None
+        if D == 1:
+            H = None
         g = [x for k, x in enumerate(self.grid) if k != ax]
         sh = Sheet(g, self.osh, V, J, H)
         sh.scale = self.scale
@@ -294,7 +299,12 @@ class Sheet:
 # ----------------------------------------------------------------------------------
 # the battery of evaluation routes
 
+OBJ_FAILED = {}      # (class name, shape class, sdim) -> routes that fail on explicit control nets (family "base")
+
+
 class Battery:
+    record = False       # True for the family of explicit control nets: failures are object-level, not operation-level
+
     def __init__(self, ctx, agg, tag, info, failed=None, prefix=''):
         self.ctx, self.agg, self.tag, self.info = ctx, agg, tag, info
         self.failed = set(failed or ())        # routes that already failed on the parent object: not repeated on faces
@@ -305,6 +315,8 @@ class Battery:
         d = dict(self.info)
         d.update(kw)
         self.failed.add(route.split(' sdim=')[0])
+        if self.record and getattr(self, 'key', None):
+            OBJ_FAILED.setdefault(self.key, set()).add(route.split(' sdim=')[0])
         pre = '' if route.startswith('boundary(') else self.prefix
         self.agg.add('%s %s%s: %s' % (self.tag, pre, route, what), **d)
 
@@ -350,6 +362,12 @@ def check_object(bt, G, sh, desc, depth=0, hess=True, pointwise=True):
     sc = sh.scale
     grid = sh.grid
     g = bt.guarded
+    bt.key = (type(G).__name__, shape_class(osh), D)
+    if not bt.record:
+        # routes already known to fail on every object of this class/shape/dimension are object-level defects:
+        # reported once (family "base"), not again for every operation that returns such an object
+        bt.failed |= OBJ_FAILED.get(bt.key, set()) - {'attributes'}
+    known_attr = (not bt.record) and bool(bt.prefix) and 'attributes' in OBJ_FAILED.get(bt.key, ())
 
     # -- attributes --------------------------------------------------------------------------------
     def attrs():
@@ -369,7 +387,8 @@ def check_object(bt, G, sh, desc, depth=0, hess=True, pointwise=True):
         shp = r.get('output_shape')
         if shp is not None and {shp[0], shp[1]} == {(), (1,)}:
             # scalar <-> 1-vector: reported once; values are then compared modulo the singleton axis
-            bt.viol('attributes', 'output shape %s instead of %s' % (shp[0], shp[1]))
+            if not bt.squeeze_ok and not known_attr:
+                bt.viol('attributes', 'output shape %s instead of %s' % (shp[0], shp[1]))
             bt.squeeze_ok = True
         else:
             for k, v in r.items():
@@ -401,7 +420,7 @@ def check_object(bt, G, sh, desc, depth=0, hess=True, pointwise=True):
     X = g('grid_jacobian', lambda: G.grid_jacobian(grid))
     if X is not None:
         bt.cmp('grid_jacobian', X, sh.J, sc, D)
-    if hess and len(osh) <= 1 and hasattr(G, 'grid_hessian'):
+    if hess and sh.H is not None and len(osh) <= 1 and hasattr(G, 'grid_hessian'):
         X = g('grid_hessian', lambda: G.grid_hessian(grid))
         if X is not None:
             bt.cmp('grid_hessian', X, sh.H, sc, D)
@@ -456,6 +475,8 @@ def check_object(bt, G, sh, desc, depth=0, hess=True, pointwise=True):
                 info = dict(bt.info)
                 info['bdspec'] = list(bt.info.get('bdspec', [])) + [spec]
                 sub = Battery(bt.ctx, bt.agg, bt.tag, info, failed=bt.failed, prefix='boundary().')
+                sub.squeeze_ok = bt.squeeze_ok
+                sub.record = bt.record
                 if desc.get('kind') in ('bsp', 'nurbs'):
                     want = {'bsp': 'BSplineFunc', 'nurbs': 'NurbsFunc'}[desc['kind']]
                     if type(Bf).__name__ != want:
@@ -498,6 +519,7 @@ def check_restricted_support(bt, make, sh, desc):
             cut = tuple(slice(lo[k], hi[k] + 1) for k in range(D) if k != ax)
             for spec in ((ax, side), BDNAME[(D, ax, side)]):
                 sub = Battery(bt.ctx, bt.agg, bt.tag + ' restricted-support boundary', bt.info, failed=bt.failed)
+                sub.squeeze_ok = bt.squeeze_ok
                 Bf = sub.guarded('boundary', lambda: G.boundary(spec))
                 if Bf is None:
                     continue
@@ -559,6 +581,7 @@ def run_case(ctx, agg, rec):
                                                           '%s(%s)' % (top, ','.join(operand_class(r[k]) for k in ('a', 'b') if k in r)),
                                                           case_tag(rec))
     bt = Battery(ctx, agg, tag, info)
+    bt.record = (top == 'obj')
     ctx.case((rec['fam'], rec['id'], recipe_str(r), D, tuple(res['osh'])), nontrivial=True,
              sample={'recipe': recipe_str(r), 'sdim': D, 'osh': res['osh'], 'grid_sizes': list(sh.gs),
                      'first_value': rec['val'][0][0]} if rec['id'] % 37 == 5 else None)
@@ -610,8 +633,7 @@ def run_case(ctx, agg, rec):
 
 def operand_class(r):
     if r['op'] == 'obj':
-        o = r['obj']
-        return '%s %s' % ({'bsp': 'BSplineFunc', 'nurbs': 'NurbsFunc'}[o['kind']], shape_class(o['osh']))
+        return shape_class(r['obj']['osh'])
     return recipe_str(r)
 
 
@@ -625,12 +647,106 @@ def apply_top(r, ops):
 
 
 # ----------------------------------------------------------------------------------
+# the state machine "no operation alters an existing object" (spec/GeoFuncOps.tla)
+
+def ops_cfgs(ctx):
+    """(universe, MaxSteps, MaxLive, simulate)"""
+    if ctx.thorough:
+        return [(1, 2, 6, None), (2, 2, 6, None), (3, 2, 6, None), (1, 4, 8, 300), (2, 4, 8, 300), (3, 4, 8, 300)]
+    return [(1, 2, 6, None), (2, 1, 6, None), (3, 1, 6, None), (2, 3, 7, 40)]
+
+
+def apply_step(st, live):
+    rr = dict(st)
+    rr['a'] = {'op': '__pre', 'v': live[st['a'] - 1]}
+    if 'b' in st:
+        rr['b'] = {'op': '__pre', 'v': live[st['b'] - 1]}
+    return build(rr, Built())
+
+
+def step_str(st):
+    return '%s(%s)' % (st['op'], ','.join(str(st[k]) for k in ('a', 'b') if k in st))
+
+
+def run_ops(ctx, agg, res, name):
+    inits = res.recs('INIT')
+    steps = res.recs('STEP')
+    if not inits or not steps:
+        raise MachineryError('GeoFuncOps %s emitted nothing' % name)
+    objs = inits[0]['objs']
+    seen = set()
+    for rec in steps:
+        hist = rec['hist']
+        key = (name, repr(hist))
+        if key in seen:
+            continue
+        seen.add(key)
+        hs = ' '.join(step_str(st) for st in hist)
+        ctx.case(('ops', inits[0]['universe'], hs), nontrivial=len(hist) >= 2 or 'b' in hist[-1],
+                 sample={'universe': inits[0]['universe'], 'history': hs, 'result': rec['res']} if len(seen) % 997 == 5 else None)
+        info = dict(universe=inits[0]['universe'], history=hs, last=hist[-1])
+        bt = Battery(ctx, agg, 'operations', info)
+        bt.squeeze_ok = True         # scalar <-> 1-vector output shapes are reported by the case families
+        try:
+            live = [build_obj(o, k) for k, o in enumerate(objs)]
+        except Exception as ex:
+            raise MachineryError('cannot build the initial objects: %r' % ex)
+        ok = True
+        for st in hist:
+            before = [fingerprint(x) for x in live]
+            try:
+                G = apply_step(st, live)
+            except Exception as ex:
+                bt.viol('%s' % st['op'], 'exception %s' % type(ex).__name__, error=repr(ex)[:300])
+                ok = False
+                break
+            after = [fingerprint(x) for x in live]
+            for k, (x, y) in enumerate(zip(before, after)):
+                if x != y:
+                    bt.viol('%s' % st['op'], 'alters an existing object', altered=k + 1,
+                            operand=(k + 1) in (st['a'], st.get('b')))
+            live.append(G)
+        if not ok:
+            continue
+        G = live[-1]
+        grid = [np.array([fr(x) for x in ax]) for ax in rec['grid']]
+        gs = tuple(len(g) for g in grid)
+        osh = tuple(rec['res']['osh'])
+        D = len(grid)
+        V = farr(rec['val']).T.reshape(gs + osh)
+        J = np.transpose(farr(rec['jac']), (2, 1, 0)).reshape(gs + osh + (D,))
+        sc = 4.0 * max(1.0, float(np.abs(V).max()), float(np.abs(J).max()))
+        before = [fingerprint(x) for x in live]
+        want = {'bsp': 'BSplineFunc', 'nurbs': 'NurbsFunc'}[rec['res']['kind']]
+        if type(G).__name__ != want:
+            bt.viol(hist[-1]['op'], 'result is a %s, expected %s' % (type(G).__name__, want))
+        X = bt.guarded('%s result grid_eval' % hist[-1]['op'], lambda: G.grid_eval(grid))
+        if X is not None:
+            bt.cmp('%s result grid_eval' % hist[-1]['op'], X, V, sc, D)
+        X = bt.guarded('%s result grid_jacobian' % hist[-1]['op'], lambda: G.grid_jacobian(grid))
+        if X is not None:
+            bt.cmp('%s result grid_jacobian' % hist[-1]['op'], X, J, sc, D)
+        # evaluating every live object must not alter anything either
+        for x in live[:-1]:
+            try:
+                x.grid_eval([np.array([float(lo), float(hi)]) for lo, hi in x.support])
+                x.grid_jacobian([np.array([float(lo), float(hi)]) for lo, hi in x.support])
+            except Exception:
+                pass
+        after = [fingerprint(x) for x in live]
+        for k, (x, y) in enumerate(zip(before, after)):
+            if x != y:
+                bt.viol('evaluation', 'alters an existing object', altered=k + 1)
+    return len(seen)
+
+
+# ----------------------------------------------------------------------------------
 
 def fam_runs(ctx):
-    """(family, nparts) per tier"""
+    """(family, nparts, workers) per tier"""
     if ctx.thorough:
-        return [('base', 6)]
-    return [('base', 3)]
+        return [('base', 8, 2), ('unary', 8, 2), ('binary', 8, 2), ('ctor', 2, 2)]
+    return [('base', 3, 2), ('unary', 2, 2), ('binary', 3, 2), ('ctor', 1, 2)]
 
 
 def run(ctx):
@@ -640,25 +756,45 @@ def run(ctx):
     ctx.assumptions = ['expected values are exact rationals of spec/GeoFunc.tla; float comparison |x-q| <= 1e-11 max(1,|q|,4 max|sheet|)']
     agg = Agg(ctx)
     jobs = []
-    for fam, nparts in fam_runs(ctx):
+    for fam, nparts, workers in fam_runs(ctx):
         for part in range(nparts):
-            jobs.append((fam, nparts, part))
+            jobs.append((fam, nparts, part, workers))
 
     def run_job(job):
-        fam, nparts, part = job
-        cfg = write_cfg(ctx.scratch / ('gf_%s_%d.cfg' % (fam, part)),
-                        dict(Fam=fam, Thorough=ctx.thorough, NParts=nparts, Part=part, Seed=int(ctx.seed) % 1000),
-                        invariants=['CaseOK'])
-        return fam, ctx.tlc('GeoFuncCases', cfg, workers=2, timeout=7200)
+        fam, nparts, part, workers = job
+        for maxd in (2, 1):
+            cfg = write_cfg(ctx.scratch / ('gf_%s_%d_%d.cfg' % (fam, part, maxd)),
+                            dict(Fam=fam, Thorough=ctx.thorough, NParts=nparts, Part=part, Seed=int(ctx.seed) % 1000, MaxD=maxd),
+                            invariants=['CaseOK'])
+            res = ctx.tlc('GeoFuncCases', cfg, workers=workers, timeout=7200, must_pass=False)
+            if res.ok:
+                return fam, res
+            if maxd == 2 and res.error and 'Overflow when computing' in res.error:
+                # exact 32-bit rational arithmetic overflowed in a second derivative: this part is redone without Hessians
+                ctx.skip('family %s part %d/%d: Hessians not checked (32-bit overflow in the exact reference)' % (fam, part, nparts))
+                continue
+            raise MachineryError('GeoFuncCases %s part %d: TLC did not complete cleanly (violated=%s error=%s)\n%s'
+                                 % (fam, part, res.violated, res.error, res.stdout[-3000:]))
+
+    def run_ops_job(item):
+        uni, maxsteps, maxlive, sim = item
+        name = 'ops_u%d_s%d%s' % (uni, maxsteps, '_sim' if sim else '')
+        cfg = write_cfg(ctx.scratch / (name + '.cfg'), dict(Universe=uni, MaxSteps=maxsteps, MaxLive=maxlive, DoEmit=True),
+                        invariants=['AllWellFormed', 'EmitInit'], properties=['OperandsUnchanged'], view='View')
+        kw = dict(simulate=sim, depth=maxsteps + 1, seed=int(ctx.seed) + 7) if sim else {}
+        return name, ctx.tlc('GeoFuncOps', cfg, workers=1 if sim else 2, timeout=7200, **kw)
 
     with ThreadPoolExecutor(6) as ex:
+        fut_ops = [ex.submit(run_ops_job, it) for it in ops_cfgs(ctx)]
         results = list(ex.map(run_job, jobs))
+        ops_results = [f.result() for f in fut_ops]
     n = 0
     for fam, res in results:
-        for rec in res.recs('CASE'):
+        for rec in sorted(res.recs('CASE'), key=lambda r: r['id']):
             run_case(ctx, agg, rec)
             n += 1
     if n == 0:
         raise MachineryError('GeoFuncCases emitted nothing')
+    ctx.notes['operation_histories_replayed'] = sum(run_ops(ctx, agg, res, name) for name, res in ops_results)
     agg.flush()
     ctx.exhaustive = True
